@@ -180,6 +180,16 @@ def resolve(expr, start={}):
                 return expr
             elif op in [Operator.QUOTE, Operator.QUASIQUOTE, Operator.ALIAS]:
                 return expr
+            elif op == Operator.CASE:
+                # the key of a clause is data that is compared with the key form, it is never evaluated
+                keyform = [resolve_vars(sub) for sub in expr[1:2]]
+                clauses = []
+                for clause in expr[2:]:
+                    if isinstance(clause, WList) and len(clause) > 0:
+                        body = [resolve_vars(sub) for sub in clause[1:]]
+                        clause = WList([clause[0], *body], line_info=clause.line_info)
+                    clauses.append(clause)
+                return WList([op, *keyform, *clauses], line_info=expr.line_info)
             else:
                 return WList([resolve_vars(sub) for sub in expr], line_info=expr.line_info)
         elif isinstance(expr, Symbol):
